@@ -178,7 +178,7 @@ M = [
  ("promotions-reordered-c14", "src/move_generator/mod.rs", "[Piece::Queen, Piece::Rook, Piece::Bishop, Piece::Knight]", "[Piece::Knight, Piece::Rook, Piece::Bishop, Piece::Queen]", "violation", ["C14"]),
  ("benign-promotions-reordered-c01", "src/move_generator/mod.rs", "[Piece::Queen, Piece::Rook, Piece::Bishop, Piece::Knight]", "[Piece::Knight, Piece::Rook, Piece::Bishop, Piece::Queen]", "ok", ["C01"]),
  ("filter-reverses-order", "src/move_generator/mod.rs", "            valid_moves.push(chess_move);", "            valid_moves.insert(0, chess_move);", "violation", ["C14"]),
- ("coordinates-take-last-match", "src/game/game.rs", ".find(|m| m.from_square() == from_square && m.to_square() == to_square)", ".filter(|m| m.from_square() == from_square && m.to_square() == to_square).last()", "violation|undecided", ["C14"]),
+ ("coordinates-take-last-match", "src/game/game.rs", ".find(|m| m.from_square() == from_square && m.to_square() == to_square)\n            .ok_or(", ".filter(|m| m.from_square() == from_square && m.to_square() == to_square).last()\n            .ok_or(", "violation|undecided", ["C14"]),
 
 ]
 
